@@ -7,6 +7,9 @@ Driver for C13.  case  := `<W> <L> <ev,ev,...>`   W ∈ B<dur> | M | C | P<inter
                           (= `d.as_millis() as u64`)
                  ev    := <ts> | <ts>@<now>   (now = reading of the generator's processing-time clock when the event
                           is offered, default 0; the generator is created at reading 0)
+                          each ev may end in `#<src>.<typ>.<pay>.<ids>.<seq>.<tag>` (harness tables): the DECORATION of the offered
+                          StreamEvent — source, event type, payload, id text, sequence number, tags. The model is a function of
+                          (position, ts, now) only: the driver DROPS the decoration (`stripDeco`); the oracle is the same `runOk`.
                  obs   := step;step;...   step := wm/hist/events/side/late,dropped,allowed,sidecount
   drv_c13 model   : case            ↦ obs predicted by the model
   drv_c13 oracle  : case | obs      ↦ `ok <tags>` / `fail <clause>` (Spec.runOk on the observations)
@@ -38,9 +41,18 @@ def parseW (s : String) : Option WmStrategy :=
   else if s.startsWith "P" then (s.drop 1).toNat?.map .periodic
   else none
 
-/-- `<ts>` or `<ts>@<now>` -/
+/-- the event token without its decoration -/
+def stripDeco (s : String) : String := (s.splitOn "#").head!
+
+/-- the source index of the decoration (0 when there is none) -/
+def srcOf (s : String) : Nat :=
+  match s.splitOn "#" with
+  | [_, d] => ((d.splitOn ".").head!.toNat?).getD 0
+  | _ => 0
+
+/-- `<ts>` or `<ts>@<now>`, an optional `#decoration` ignored -/
 def parseEvTok (s : String) : Option (Nat × Nat) :=
-  match s.splitOn "@" with
+  match (stripDeco s).splitOn "@" with
   | [t] => t.toNat?.map (·, 0)
   | [t, n] => do pure (← t.toNat?, ← n.toNat?)
   | _ => none
@@ -109,6 +121,10 @@ def oracleLine (line : String) : String :=
           ++ (if last.history.length ≥ 2 then ["wm_advanced_twice"] else [])
           ++ (match w with | .periodic _ => ["periodic"] | .bounded _ => ["bounded"] | .monotonic => ["monotonic"] | .custom => ["custom"])
           ++ (if (c.splitOn "s").length > 1 || (c.splitOn "MAX").length > 1 then ["dur_secs_nanos"] else [])
+          ++ (if (c.splitOn "#").length > 1 then ["decorated"] else [])
+          ++ (match tokens c with
+              | [_, _, evs] => if ((evs.splitOn ",").map srcOf).eraseDups.length ≥ 2 then ["multi_source"] else []
+              | _ => [])
           ++ (if last.late > 0 then ["nontrivial"] else [])
         joinSp ("ok" :: tags)
       else
